@@ -1040,6 +1040,11 @@ def enumerated(chk):
         out.append(seq_case("sequence", single(a), [r1, r1, r1, r1], "sync", [{"mode": "all"}, {"mode": "none"}, {"mode": "all"}, {"mode": "none"}]))
         out.append(seq_case("sequence", single({"not": a}), [r1, r1, r1], "raising" if salt % 2 else "sync",
                             [{"mode": "none"}, {"mode": "all"}, {"mode": "none"}]))
+    # 8. the same triple with different contexts (the context is part of the key), every operator context
+    A1, A2, A3 = node("viewer", ctx={"ip": "1"}), node("viewer", ctx={"ip": "2"}), node("viewer", ctx={"ip": 1})
+    for (name, f), salt, (x, y) in itertools.product(OPCTX.items(), salts, [(A1, A2), (A1, A3), (a, A1)]):
+        out.append(seq_case("ctxkey:" + name, single(f(copy.deepcopy(x), copy.deepcopy(y)), algo="permit-overrides"),
+                            [mkreq(ctx={"_rebac": {"z": 1}})], ["sync", "async", "values"][salt % 3], [{"salt": salt}], twin=(salt % 3 == 0)))
     return out
 
 
